@@ -25,6 +25,10 @@ def series(draw, positive=False, min_len=3):
     off = draw(st.sampled_from([0.0, 0.0, 1.0, -3.0, 100.0]))
     pat = draw(st.lists(st.floats(-1, 1, allow_nan=False, width=32), min_size=1, max_size=16))
     spec = {"shape": shape, "n": n, "scale": scale, "off": off, "pat": pat, "positive": positive}
+    if draw(st.integers(0, 7)) == 0:
+        # a level with a tiny ripple on top (max and min agree to ~1e-10 relative, yet the series is not constant)
+        spec["level"] = draw(st.sampled_from([1.0, 1e6, -1e3, 37.5]))
+        spec["ripple"] = draw(st.sampled_from([1e-10, 3e-10, 1e-11, 1e-9]))
     if shape == "list":
         spec["n"] = min(n, 64)
         spec["pat"] = draw(st.lists(st.floats(-1, 1, allow_nan=False), min_size=spec["n"], max_size=spec["n"]))
@@ -51,6 +55,9 @@ def build(spec):
     else:
         y = sum(c * np.sin((k + 1) * 0.37 * t + k) for k, c in enumerate(pat[:4]))
     y = spec["off"] + spec["scale"] * y
+    if spec.get("ripple"):
+        m = float(np.max(np.abs(y)))
+        y = spec["level"] * (1.0 + spec["ripple"] * (y / m if m > 0 else y))
     if spec.get("positive"):
         y = np.abs(y) + spec["scale"] * 1e-3 + 1e-9
     return np.asarray(y, dtype=float)
